@@ -78,3 +78,85 @@ def keywordize_module(repo, path: str) -> str:
             node.args = node.args[:1]
             node.keywords = new_kw + node.keywords
     return ast.unparse(ast.fix_missing_locations(tree)) + "\n"
+
+
+def _trivial(e):
+    return isinstance(e, (ast.Name, ast.Constant)) or (
+        isinstance(e, ast.UnaryOp) and isinstance(e.operand, ast.Constant)
+    )
+
+
+class _Hoister(ast.NodeTransformer):
+    """'Extract variable' refactoring: the non-trivial arguments of the call on the right-hand side of a simple
+    statement are computed into fresh locals first (left to right, so evaluation order is unchanged)."""
+
+    def __init__(self):
+        self.n = 0
+
+    def _hoist_stmt(self, st):
+        if isinstance(st, (ast.Assign, ast.Return, ast.Expr, ast.AugAssign, ast.AnnAssign)):
+            call = st.value
+        else:
+            return [st]
+        if not isinstance(call, ast.Call):
+            return [st]
+        if any(isinstance(a, ast.Starred) for a in call.args) or any(k.arg is None for k in call.keywords):
+            return [st]
+        f = call.func
+        while isinstance(f, ast.Attribute):
+            f = f.value
+        if not isinstance(f, ast.Name):
+            return [st]
+        slots = [("a", i, a) for i, a in enumerate(call.args)] + [("k", i, k.value) for i, k in enumerate(call.keywords)]
+        complex_idx = [j for j, (_, _, e) in enumerate(slots) if not _trivial(e) and not isinstance(e, ast.Attribute)]
+        if not complex_idx:
+            return [st]
+        # generator expressions / lambdas as arguments stay in place (their evaluation is lazy)
+        last = max(complex_idx)
+        pre = []
+        for j, (kind, i, e) in enumerate(slots):
+            if j > last:
+                break
+            if _trivial(e) or isinstance(e, (ast.GeneratorExp, ast.Lambda)):
+                continue
+            self.n += 1
+            name = "_h%d" % self.n
+            pre.append(ast.Assign(targets=[ast.Name(id=name, ctx=ast.Store())], value=e, lineno=st.lineno))
+            ref = ast.Name(id=name, ctx=ast.Load())
+            if kind == "a":
+                call.args[i] = ref
+            else:
+                call.keywords[i].value = ref
+        return pre + [st]
+
+    def _block(self, stmts):
+        out = []
+        for st in stmts:
+            st = self.generic_visit(st)
+            out.extend(self._hoist_stmt(st))
+        return out
+
+    def generic_visit(self, node):
+        for fld in ("body", "orelse", "finalbody"):
+            v = getattr(node, fld, None)
+            if isinstance(v, list) and v and isinstance(v[0], ast.stmt):
+                setattr(node, fld, self._block(v))
+        for h in getattr(node, "handlers", []) or []:
+            h.body = self._block(h.body)
+        return node
+
+
+def hoist_module(src: str) -> str:
+    tree = ast.parse(src)
+    h = _Hoister()
+    for fn in [n for n in ast.walk(tree) if isinstance(n, (ast.FunctionDef, ast.AsyncFunctionDef))]:
+        # only outermost functions are entered here; nested ones are reached through generic_visit
+        pass
+    for node in tree.body:
+        if isinstance(node, (ast.FunctionDef, ast.AsyncFunctionDef)):
+            h.generic_visit(node)
+        elif isinstance(node, ast.ClassDef):
+            for sub in node.body:
+                if isinstance(sub, (ast.FunctionDef, ast.AsyncFunctionDef)):
+                    h.generic_visit(sub)
+    return ast.unparse(ast.fix_missing_locations(tree)) + "\n"
